@@ -25,31 +25,56 @@ func init() {
 // function passes an edge establishing cond; continues into the parent when `from` is in a closure.
 func (c *Ctx) AfterRequire(from ssa.Instruction, cond *Cond) (bool, string, int) {
 	fn := from.Parent()
-	o := c.P.OriginsOf(fn)
-	acc := o.AcceptEdges(cond)
-	cut := NewCut()
-	for e := range acc {
-		cut.Edges[e] = true
+	local := func(o *Origins) (bool, string, int) {
+		acc := o.AcceptEdges(cond)
+		cut := NewCut()
+		for e := range acc {
+			cut.Edges[e] = true
+		}
+		n := 0
+		for _, r := range o.SuccessReturns() {
+			// only returns reachable from `from`
+			if reach, _ := o.ReachAvoiding(from, r, NewCut()); !reach {
+				continue
+			}
+			n++
+			if reach, path := o.ReachAvoiding(from, r, cut); reach {
+				return false, "success return at " + c.P.InstrPos(r) + " reachable from " + c.P.InstrPos(from) + " avoiding every [" + cond.Name + "] edge: " + path, n
+			}
+		}
+		return true, "", n
 	}
-	n := 0
-	for _, r := range o.SuccessReturns() {
-		// only returns reachable from `from`
-		if reach, _ := o.ReachAvoiding(from, r, NewCut()); !reach {
-			continue
+	// a helper that is new on this tree is read in the context of each of its call sites and the walk
+	// continues behind the call (the helper's success then implies the condition through its summary)
+	if fn.Parent() == nil && c.P.IsNewFunc(fn) {
+		if sites := c.callersOf(fn); len(sites) > 0 && c.reqDepth < 4 {
+			c.reqDepth++
+			defer func() { c.reqDepth-- }()
+			total := 0
+			for _, site := range sites {
+				ok, why, n := local(c.P.OriginsOf(site.Parent()).Enter(fn, site))
+				total += n
+				if !ok {
+					return false, why, total
+				}
+				ok, why, m := c.AfterRequire(site, cond)
+				total += m
+				if !ok {
+					return false, why, total
+				}
+			}
+			return true, "", total
 		}
-		n++
-		if reach, path := o.ReachAvoiding(from, r, cut); reach {
-			return false, "success return at " + c.P.InstrPos(r) + " reachable from " + c.P.InstrPos(from) + " avoiding every [" + cond.Name + "] edge: " + path, n
-		}
+	}
+	ok, why, n := local(c.P.OriginsOf(fn))
+	if !ok {
+		return false, why, n
 	}
 	if fn.Parent() != nil {
 		for _, site := range ClosureCallSites(FindMakeClosure(fn)) {
 			ok, why, m := c.AfterRequire(site, cond)
 			n += m
 			if !ok {
-				// the parent is fine if the closure's success already implies the condition
-				po := c.P.OriginsOf(site.Parent())
-				_ = po
 				return false, why, n
 			}
 		}
@@ -311,8 +336,35 @@ func (c *Ctx) c03WriterCensus(mint, quoteOp *ssa.Function, st map[string]string)
 	for k, v := range st {
 		names[v] = strings.ToUpper(k)
 	}
+	opSet := map[*ssa.Function]map[*ssa.Function]bool{}
 	inOp := func(f, op *ssa.Function) bool {
-		return op != nil && EnclosingTop(f) == op
+		if op == nil {
+			return false
+		}
+		if opSet[op] == nil {
+			opSet[op] = map[*ssa.Function]bool{}
+			for _, g := range c.OpFuncs(op) {
+				opSet[op][g] = true
+			}
+		}
+		return opSet[op][f]
+	}
+	// the guarded section of the mint op: the closure or helper that contains the PENDING write
+	writesPending := func(f *ssa.Function) bool {
+		if f == nil {
+			return false
+		}
+		for _, g := range WithClosures(f) {
+			for _, ci := range Calls(g) {
+				d := c.P.Describe(ci)
+				if c.V.DBRole(d, roleSetMint) && len(d.Args) > 1 {
+					if v := c.P.OriginsOf(g).Of(d.Args[1]); v.K == "const" && v.S == st["Pending"] {
+						return true
+					}
+				}
+			}
+		}
+		return false
 	}
 	// functions launched with `go`
 	goTargets := map[*ssa.Function]bool{}
@@ -372,8 +424,15 @@ func (c *Ctx) c03WriterCensus(mint, quoteOp *ssa.Function, st map[string]string)
 			case "PAID":
 				// revert: only on the failure edge of the guarded section
 				revert := &Cond{Name: "guarded section failed", Match: func(f *Fact, o2 *Origins) bool {
-					return f.Kind == "errnil" && !f.Pos && f.A.K == "call" && f.A.Call != nil &&
-						(func() bool { _, isClosure := f.A.Call.Common().Value.(*ssa.MakeClosure); return isClosure })()
+					if f.Kind != "errnil" || f.Pos || f.A.K != "call" || f.A.Call == nil {
+						return false
+					}
+					if mc, isClosure := f.A.Call.Common().Value.(*ssa.MakeClosure); isClosure {
+						fnc, _ := mc.Fn.(*ssa.Function)
+						return writesPending(fnc)
+					}
+					callee := f.A.Call.Common().StaticCallee()
+					return callee != nil && inOp(callee, mint) && writesPending(callee)
 				}}
 				ok, why := c.RequireAt(s.ci, revert)
 				R.Check("R5", fk, construct+" (revert)", pos, ok, "mint op writes PAID only to revert a failed PENDING section", why)
